@@ -25,6 +25,7 @@ def history(ctx, rng, M, n_runs):
     rr = runscen.RunRepo(ctx, CFG, kinds=kinds, M=M, commands=CMDS)
     ids = {}
     recs = []
+    run_nos = []
     try:
         for n in range(1, n_runs + 1):
             cmds = rng.sample(CMDS, rng.randint(1, 3))
@@ -38,6 +39,12 @@ def history(ctx, rng, M, n_runs):
             if rng.random() < 0.3:
                 rr.script["%s|%s" % (rng.choice(cmds), rng.choice([t["path"] for t in CFG["targets"]]))] = {"exit": rng.randint(1, 255)}
             rr.write_script()
+            if rng.random() < 0.2:
+                # an invocation that dies after producing logs but before storing its result (it is not one of the
+                # completed runs r1..rk; whatever it left in the slot must be gone after the next completed run)
+                other = ["-c"] + rng.sample(CMDS, rng.randint(1, 3))
+                rr.run(*other, env={"MONORAIL_VERIF_POINTS": "run_before_store_result=abort:1"})
+                ctx.count("aborted_invocation")
             rc, out, err, raw = rr.run(*args)
             case = {"M": M, "step": n, "args": args, "script": rr.script}
             if out is None:
@@ -56,7 +63,7 @@ def history(ctx, rng, M, n_runs):
                             planned.add(os.path.join(cmd, runscen.thash(t), s))
             cur = slots.get(ptr, {"logs": {}, "result": None})
             leftovers = [p for p in cur["logs"] if p not in planned]
-            foreign = [p for p, d in cur["logs"].items() if d and not d.startswith(b"run=%d " % n)]
+            foreign = [p for p, d in cur["logs"].items() if d and not d.startswith(b"run=%d " % rr.run_no)]
             ok_slot = not leftovers and not foreign and runscen.strip_result(cur["result"]) == runscen.strip_result(out)
             # the record this run left, as model input
             logs = sorted(intern(ids, ("log", p, hashlib.sha1(d or b"").hexdigest())) for p, d in cur["logs"].items())
@@ -76,17 +83,18 @@ def history(ctx, rng, M, n_runs):
             agree, spec = bool(v[2]), bool(v[3])
             # log show --id N for every retained run, and for one that is gone
             ok_logs = True; why = None
+            run_nos.append(rr.run_no)
             for back in range(0, min(n, M)):
-                m = n - back; sid = (m - 1) % M + 1
+                m = n - back; sid = (m - 1) % M + 1; m_no = run_nos[m - 1]
                 rcl, _, _, rawl = vlib.monorail(rr.repo, "log", "show", "--id", str(sid), "--stdout", "--stderr")
                 text = rawl.stdout
                 nums = set(int(x) for x in re.findall(rb"^run=(\d+) ", text, flags=re.M))
                 want_nonempty = any(d for d in slots.get(sid, {"logs": {}})["logs"].values())
-                if rcl != 0 or (nums - {m}) or (want_nonempty and m not in nums):
-                    ok_logs = False; why = {"id": sid, "run": m, "rc": rcl, "saw_runs": sorted(nums)}
+                if rcl != 0 or (nums - {m_no}) or (want_nonempty and m_no not in nums):
+                    ok_logs = False; why = {"id": sid, "run": m, "marker": m_no, "rc": rcl, "saw_markers": sorted(nums)}
             rcl, _, _, rawl = vlib.monorail(rr.repo, "log", "show", "--stdout", "--stderr")
             nums = set(int(x) for x in re.findall(rb"^run=(\d+) ", rawl.stdout, flags=re.M))
-            if rcl != 0 or (nums - {n}): ok_logs = False; why = {"latest": True, "rc": rcl, "saw_runs": sorted(nums)}
+            if rcl != 0 or (nums - {rr.run_no}): ok_logs = False; why = {"latest": True, "rc": rcl, "saw_markers": sorted(nums)}
             ok = ok_show and ok_slot and ok_logs and not extra_dirs and spec
             nontriv = n > M or bool(out.get("failed"))
             ctx.count("M_%d" % M); ctx.count("failed_run" if out.get("failed") else "ok_run"); ctx.count("explicit_targets" if targets else "all_targets")
